@@ -3,23 +3,23 @@
 import json, os
 
 CLAIMED = {
- "C01": ("notebook diff/patch round trip: real diff_notebooks/patch executed symbolically over generated notebooks (symbolic leaves: minor version, execution counts, metadata values, JSON payload scalars; edit-script selectors enumerated); reference patcher + JSON identity decided by z3 per path; file interface witnessed on model instances", "5.C01"),
- "C02": ("generic JSON diff/patch round trip incl. value types: real nbdime.diff/patch on documents whose scalar leaves have symbolic JSON type and value; reference patcher from the documented format; z3 discharges identity for all values on each path", "5.C02"),
- "C03": ("merge completes: real merge_notebooks over generated triples x strategy product x text-merge tool; any exception on any feasible path is a counterexample", "5.C03"),
- "C04": ("merged notebook validates against nbformat's schema for its declared minor; minors symbolic", "5.C04"),
- "C05": ("merge laws (identity, adoption, agreement, symmetry) on generic documents and notebooks, decided per path by z3", "5.C05"),
- "C06": ("disjoint ownership merges cleanly into the by-construction expectation; ownership/insert constraints pruned by the solver", "5.C06"),
- "C07": ("default strategy neither drops nor invents source lines; same-line rewrites are flagged; three text-merge back ends", "5.C07"),
- "C08": ("merge command / git driver exit status, output file and failure behaviour with a symbolic single fault over I/O steps", "5.C08"),
- "C09": ("decisions determine the merge (reference applier), choose-local/remote reproduce sides, schema, ordering", "5.C09"),
- "C10": ("use-base/local/remote equal relabelled mergetool decisions applied by the reference applier", "5.C10"),
- "C11": ("every diff produced (generic, notebook, inside decisions) passes a strict well-formedness validator and the published schema; unit harnesses over arbitrary valid pre-states", "5.C11"),
- "C12": ("diffing is independent of process history: symbolic histories of diff/merge/ignore calls compared with a pristine re-import", "5.C12"),
- "C13": ("inputs never modified: structural snapshots with the same symbolic leaves compared by JSON identity after every public call; container aliasing reported", "5.C13"),
- "C14": ("ignore options: 64 subsets x delivery modes x per-category difference flags; nothing reported in ignored categories, round trip on the rest", "5.C14"),
- "C16": ("terminal rendering never fails; emptiness / non-emptiness / no ANSI without colour", "5.C16"),
- "C17": ("narrow: working-directory restoration and entry filtering/pairing kernel of changed_notebooks over a nondeterministic git stub", "5.C17"),
- "C19": ("option resolution against an executable model of docs/source/config.rst with symbolic presence/values per (directory, section, option)", "5.C19"),
+ "C01": ("notebook diff/patch round trip: real diff_notebooks/patch executed symbolically over generated notebooks (symbolic leaves: minor version, execution counts, metadata values, JSON payload scalars; edit-script selectors enumerated); reference patcher + JSON identity decided by z3 per path; file interface witnessed on model instances", "6.C01"),
+ "C02": ("generic JSON diff/patch round trip incl. value types: real nbdime.diff/patch on documents whose scalar leaves have symbolic JSON type and value; reference patcher from the documented format; z3 discharges identity for all values on each path", "6.C02"),
+ "C03": ("merge completes: real merge_notebooks over generated triples x strategy product x text-merge tool; any exception on any feasible path is a counterexample", "6.C03"),
+ "C04": ("merged notebook validates against nbformat's schema for its declared minor; minors symbolic", "6.C04"),
+ "C05": ("merge laws (identity, adoption, agreement, symmetry) on generic documents and notebooks, decided per path by z3", "6.C05"),
+ "C06": ("disjoint ownership merges cleanly into the by-construction expectation; ownership/insert constraints pruned by the solver", "6.C06"),
+ "C07": ("default strategy neither drops nor invents source lines; same-line rewrites are flagged; three text-merge back ends", "6.C07"),
+ "C08": ("merge command / git driver exit status, output file and failure behaviour with a symbolic single fault over I/O steps", "6.C08"),
+ "C09": ("decisions determine the merge (reference applier), choose-local/remote reproduce sides, schema, ordering", "6.C09"),
+ "C10": ("use-base/local/remote equal relabelled mergetool decisions applied by the reference applier", "6.C10"),
+ "C11": ("every diff produced (generic, notebook, inside decisions) passes a strict well-formedness validator and the published schema; unit harnesses over arbitrary valid pre-states", "6.C11"),
+ "C12": ("diffing is independent of process history: symbolic histories of diff/merge/ignore calls compared with a pristine re-import", "6.C12"),
+ "C13": ("inputs never modified: structural snapshots with the same symbolic leaves compared by JSON identity after every public call; container aliasing reported", "6.C13"),
+ "C14": ("ignore options: 64 subsets x delivery modes x per-category difference flags; nothing reported in ignored categories, round trip on the rest", "6.C14"),
+ "C16": ("terminal rendering never fails; emptiness / non-emptiness / no ANSI without colour", "6.C16"),
+ "C17": ("narrow: working-directory restoration and entry filtering/pairing kernel of changed_notebooks over a nondeterministic git stub", "6.C17"),
+ "C19": ("option resolution against an executable model of docs/source/config.rst with symbolic presence/values per (directory, section, option)", "6.C19"),
 }
 NA = {
  "C15": "subject is ~2000 lines of TypeScript; no TypeScript compiler or JavaScript symbolic executor in the sandbox, and a hand translation into SMT would be a model of the code, not the code (DESIGN.md section 7)",
